@@ -97,6 +97,7 @@ class Engine(OpsMixin, ExprMixin, CallMixin, StmtMixin, BuiltinsMixin):
         self.with_models = {}
         self.truth_hooks = {}
         self.subscript_models = {}
+        self.binop_models = {}
         self.coerce_hooks = {}
         self.binder_depth = 0
         self._bcount = 0
